@@ -23,7 +23,7 @@ client does not escape) are counted as an observation, not judged.
 """
 import json
 import random
-from urllib.parse import parse_qsl, quote, quote_plus, unquote
+from urllib.parse import parse_qsl, quote, quote_plus, unquote, unquote_plus
 
 from hio.core import http
 from hio.core.http import clienting, serving
@@ -60,7 +60,10 @@ REQUIRE = {"requests_compared": 1500, "loop_requests_compared": 40, "header_valu
            "form_bodies_compared": 100, "paths_needing_quote": 500,
            "sequence_requests_compared_on_reused_parser": 1500, "loop_sequence_requests_compared_on_kept_connection": 100,
            "header_names_dropped_between_consecutive_requests": 800, "body_dropped_between_consecutive_requests": 400,
-           "qargs_dropped_between_consecutive_requests": 400, "header_name_sets_compared": 5000}
+           "qargs_dropped_between_consecutive_requests": 400, "header_name_sets_compared": 5000,
+           "two_piece_feeds_compared": 4000, "two_piece_cut_request-line-CR_LF": 16, "two_piece_cut_header-CR_LF": 60,
+           "loop_two_write_requests_compared": 60, "queued_requests_compared": 600,
+           "queued_requests_inheriting_qargs_behind_a_path_query": 100}
 
 METHODS = ["GET", "HEAD", "PUT", "PATCH", "POST", "DELETE", "OPTIONS", "TRACE", "CONNECT"]
 
@@ -294,6 +297,57 @@ def gen_sequence(rng, tier, mode):
     return {"mode": mode, "seq": seq}
 
 
+def gen_pathquery(rng):
+    """query string to embed in a request path: plain keys, values with %XX and '+' (no ';', '#')"""
+    pairs = []
+    for _ in range(rng.randint(1, 3)):
+        k = ustr(rng, 1, 6, hostile=False)
+        v = "".join(rng.choice(["a", "Z", "7", "+", "%21", "%C3%A9", "%2B", "-", "_"]) for _ in range(rng.randint(0, 6)))
+        pairs.append([k, v])
+    return pairs
+
+
+def gen_qpath(rng):
+    """path for the queue cases: as gen_path, without ';' and still with exactly one leading '/'"""
+    p = "/" + gen_path(rng).replace(";", "").lstrip("/")
+    return p
+
+
+def gen_queue(rng, tier):
+    """one Client with client-level defaults and 2-4 Client.request() calls that are all queued before any service round"""
+    cl = {"method": rng.choice(["GET", "POST", "PUT"]), "path": gen_qpath(rng),
+          "qargs": [[ustr(rng, 1, 6, hostile=False), ustr(rng, 0, 8)] for _ in range(rng.choice([0, 1, 2]))],
+          "headers": [h for h in gen_headers(rng, allow_ctype=False, maxn=4) if h[0].lower() not in ("host", "accept-encoding")][:3]}
+    if rng.random() < 0.3:
+        cl["pathquery"] = gen_pathquery(rng)
+    reqs = []
+    n = rng.choice([2, 3, 3, 4])
+    for i in range(n):
+        r = {}
+        if rng.random() < 0.7:
+            r["method"] = rng.choice(METHODS)
+        if rng.random() < 0.85:
+            r["path"] = gen_qpath(rng)
+            if rng.random() < (0.7 if i < n - 1 else 0.3):
+                r["pathquery"] = gen_pathquery(rng)
+        if rng.random() < (0.3 if i else 0.15):       # mostly inherit the defaults: that is where sharing would show
+            r["qargs"] = [[ustr(rng, 0, 6, hostile=rng.random() < 0.3), ustr(rng, 0, 8)] for _ in range(rng.randint(0, 3))]
+            r["qargs"] = [list(kv) for kv in {k: v for k, v in r["qargs"]}.items()]
+        if rng.random() < 0.4:
+            r["headers"] = [h for h in gen_headers(rng, allow_ctype=False, maxn=5)][:4]
+        eff = r.get("method", cl["method"])
+        kind = "none" if eff == "GET" else rng.choice(["none", "bytes", "data", "fargs"])
+        r["kind"] = kind
+        if kind == "bytes":
+            r["body"] = gen_bytes(rng, 64).decode("latin-1")
+        elif kind == "data":
+            r["data"] = {ustr(rng, 0, 6): gen_json(rng, 1) for _ in range(rng.randint(0, 3))}
+        elif kind == "fargs":
+            r["fargs"] = [list(kv) for kv in {ustr(rng, 0, 6, exclude="&="): ustr(rng, 0, 8, exclude="&=") for _ in range(rng.randint(0, 3))}.items()]
+        reqs.append(r)
+    return {"mode": "queue", "client": cl, "reqs": reqs}
+
+
 def cases(tier, seed, shard, nshards):
     rng = random.Random(f"{seed}:C14:{shard}")
     ndirect = (6000 if tier == "quick" else 150000) // nshards
@@ -310,6 +364,14 @@ def cases(tier, seed, shard, nshards):
         yield gen_sequence(rng, tier, "seq-direct")
         if i % every == 0:
             yield gen_sequence(rng, tier, "seq-loop")
+    # two-piece delivery at EVERY cut position (socket-less) / at a few chosen ones (two writes over loopback)
+    for _ in range((24 if tier == "quick" else 480) // nshards or 1):
+        yield gen_spec(rng, "quick", "direct-cuts")
+    for _ in range((16 if tier == "quick" else 160) // nshards or 1):
+        yield dict(gen_spec(rng, "quick", "loop-cuts"), rcuts=[rng.random() for _ in range(2)])
+    # several Client.request() calls queued before the first service round
+    for _ in range((320 if tier == "quick" else 4800) // nshards):
+        yield gen_queue(rng, tier)
 
 
 # ---- the round trip ----------------------------------------------------------------
@@ -370,6 +432,12 @@ def fail(ctx, spec, aspect, msg):
 def run_case(spec, ctx):
     if "seq" in spec:
         return run_sequence(spec, ctx)
+    if spec["mode"] == "queue":
+        return run_queue(spec, ctx)
+    if spec["mode"] == "direct-cuts":
+        return run_direct_cuts(spec, ctx)
+    if spec["mode"] == "loop-cuts":
+        return run_loop_cuts(spec, ctx)
     ctx.count("specs_" + spec["mode"])
     ctx.count("method_" + spec["method"].upper())
     ctx.count("bodykind_" + spec["kind"])
@@ -423,12 +491,13 @@ class LoopSession:
     """one http.Server + one http.Client on ONE loopback connection; exchange() sends one spec and returns what the
     WSGI application saw for it.  Single loop cases use it once, sequences keep it for 2-4 requests."""
 
-    def __init__(self):
+    def __init__(self, client=True, **ckw):
         self.caps = []
         self.srv = self.client = None
         hl.new_case()
-        self.srv, port = hl.open_hio_server(http.Server, _state["ports"], app=self.app)
-        self.client = hl.open_hio_client(port)
+        self.srv, self.port = hl.open_hio_server(http.Server, _state["ports"], app=self.app)
+        if client:
+            self.client = hl.open_hio_client(self.port, **ckw)
         self.done = 0
 
     def app(self, environ, start_response):
@@ -543,6 +612,238 @@ class DirectSession:
 
     def close(self):
         pass
+
+
+def cut_class(msg, c):
+    i = msg.find(b"\r\n")
+    h = msg.find(b"\r\n\r\n") + 4
+    if c == i + 1:
+        return "request-line-CR|LF"
+    if c <= i:
+        return "request-line"
+    if c > h:
+        return "body"
+    if c == h:
+        return "head|body"
+    if msg[c - 1:c] == b"\r" and msg[c:c + 1] == b"\n":
+        return "header-CR|LF"
+    return "headers"
+
+
+def report_split(ctx, spec, fails, cls, how):
+    for field in sorted({FIELD_OF.get(a, a) for _, a, _ in fails}):
+        msg = next(m for _, a, m in fails if FIELD_OF.get(a, a) == field)
+        ctx.violation(f"recovery-differs-when-split:{field}:{cls}",
+                      f"{how}: {msg}; the same bytes delivered in one piece are recovered exactly")
+
+
+def run_direct_cuts(spec, ctx):
+    """Requester.build() bytes -> fresh Requestant, delivered whole and then in TWO pieces at every cut position with one
+    parse() (= one service round) in between; every delivery must recover the spec."""
+    ctx.count("specs_direct-cuts")
+    got = roundtrip_direct(spec, ctx)
+    if got is None or not compare(spec, got, ctx):
+        return          # already reported with the plain keys
+    msg = got["wire"]
+    bad = set()
+    for c in range(1, len(msg)):
+        cls = cut_class(msg, c)
+        ctx.count("two_piece_feeds")
+        ctx.count("two_piece_cut_" + cls.replace("|", "_"))
+        if cls in bad:
+            continue
+        _collect["sink"] = fails = []
+        try:
+            rs = serving.Requestant(msg=bytearray(msg[:c]), remoter=StubRemoter())
+            g = None
+            try:
+                rs.parse()                      # the server services the connection with only the first piece there
+                rs.msg.extend(msg[c:])
+                steps = 0
+                while rs.parser and steps < 64:
+                    rs.parse()
+                    steps += 1
+            except Exception as ex:
+                fail(ctx, spec, "not-parsed", f"server parser raised {ex!r}")
+            else:
+                if not rs.ended:
+                    fail(ctx, spec, "not-parsed", "server parser still waits for bytes after the complete client message")
+                elif rs.errored:
+                    fail(ctx, spec, "not-parsed", f"server rejected the client-built request: {rs.error!r}")
+                else:
+                    env = _state["server"].buildEnviron(rs)
+                    g = {"wire": msg, "env": env, "body": env["wsgi.input"].read(), "rs": rs, "left": bytes(rs.msg)}
+                    compare(spec, g, ctx)
+        finally:
+            _collect["sink"] = None
+        if fails:
+            bad.add(cls)
+            report_split(ctx, spec, fails, cls, f"request cut after byte {c} of {len(msg)} ({msg[max(0, c - 12):c]!r} | {msg[c:c + 12]!r})")
+        else:
+            ctx.count("two_piece_feeds_compared")
+    ctx.nontrivial(spec)
+
+
+def run_loop_cuts(spec, ctx):
+    """the same over loopback: raw socket -> real http.Server, request written in two writes with service rounds in between"""
+    ctx.count("specs_loop-cuts")
+    kw = spec_kwargs(spec)
+    try:
+        msg = clienting.Requester(hostname="127.0.0.1", port=8080, **kw).build()
+    except Exception as ex:
+        fail(ctx, spec, "build-raises", f"Requester.build raised {ex!r}")
+        return
+    i = msg.find(b"\r\n")
+    h = msg.find(b"\r\n\r\n") + 4
+    hdr = msg.find(b"\r\n", i + 2)
+    cuts = {i + 1, hdr + 1, h, h - 2, h - 1, i // 2 or 1}
+    if len(msg) > h + 1:
+        cuts.add(h + (len(msg) - h) // 2)
+    for r in spec.get("rcuts", []):
+        cuts.add(1 + int(r * (len(msg) - 1)))
+    for c in sorted(x for x in cuts if 0 < x < len(msg)):
+        cls = cut_class(msg, c)
+        ses = raw = None
+        _collect["sink"] = fails = []
+        try:
+            ses = LoopSession(client=False)
+            raw = hl.Raw.connect(ses.port)
+            pieces = [msg[:c], msg[c:]]
+            idle = 0
+            sent = 0
+            for rnd in range(100 + GRACE):
+                if sent < 2 and not raw.pending and (sent == 0 or hl.rx_count(raw.name) >= c):
+                    if sent == 1:
+                        ses.srv.service()        # one more round with exactly the first piece received
+                    raw.queue(pieces[sent])
+                    sent += 1
+                moved = raw.pump()
+                try:
+                    ses.srv.service()
+                except Exception as ex:
+                    typ, func, prim = hl.escape_mechanism(ex)
+                    ctx.violation(f"loop-service-raises:server:{typ}:{func}", f"server.service() raised {ex!r} on a client-built request in two writes")
+                    return
+                moved |= raw.pump()
+                if ses.caps and hl.split_response(raw.rx) is not None:
+                    break
+                if raw.eof:
+                    break
+                if not moved:
+                    idle += 1
+                    hl.idle_wait([raw.s], idle, grace=rnd >= 100)
+            ctx.count("loop_two_write_requests")
+            if not ses.caps:
+                fail(ctx, spec, "not-parsed", f"the server never handed the request to the application (connection closed={raw.eof})")
+            else:
+                cap = ses.caps[0]
+                compare(spec, {"wire": msg, "env": cap["env"], "body": cap["body"], "rs": None, "left": b"",
+                               "rs_names": cap["rs_names"], "loop": True}, ctx)
+                if len(ses.caps) > 1:
+                    fail(ctx, spec, "body-differs", f"one request was handed to the application as {len(ses.caps)} requests")
+        finally:
+            _collect["sink"] = None
+            if raw is not None:
+                raw.close()
+            if ses is not None:
+                ses.close()
+        if fails:
+            report_split(ctx, spec, fails, cls, f"request written in two writes, cut after byte {c} of {len(msg)} "
+                         f"({msg[max(0, c - 12):c]!r} | {msg[c:c + 12]!r})")
+        else:
+            ctx.count("loop_two_write_requests_compared")
+    ctx.nontrivial(spec)
+
+
+def queue_expected(case):
+    """what each queued request is, per Client.request's documentation: values not given are the requester's at the time
+    of the call (= the client-level defaults, since everything is queued before the first transmit); a query embedded
+    in the path is merged over the query args"""
+    cl = case["client"]
+    dq = {k: v for k, v in cl["qargs"]}
+    for k, v in cl.get("pathquery", []):
+        dq[unquote_plus(k)] = unquote_plus(v)
+    out = []
+    for r in case["reqs"]:
+        q = dict(dq) if "qargs" not in r else {k: v for k, v in r["qargs"]}
+        for k, v in r.get("pathquery", []):
+            q[unquote_plus(k)] = unquote_plus(v)
+        spec = {"mode": "queue", "method": r.get("method", cl["method"]), "path": r.get("path", cl["path"]),
+                "qargs": [[k, v] for k, v in q.items()], "headers": r["headers"] if "headers" in r else cl["headers"],
+                "kind": r["kind"]}
+        for f in ("body", "data", "fargs"):
+            if f in r:
+                spec[f] = r[f]
+        out.append(spec)
+    return out
+
+
+def with_query(path, pairs):
+    return path + ("?" + "&".join(f"{k}={v}" for k, v in pairs) if pairs else "")
+
+
+def run_queue(case, ctx):
+    ctx.count("queue_cases")
+    cl = case["client"]
+    specs = queue_expected(case)
+    ses = None
+    try:
+        ses = LoopSession(method=cl["method"], path=with_query(cl["path"], cl.get("pathquery")),
+                          qargs={k: v for k, v in cl["qargs"]}, headers={k: v for k, v in cl["headers"]})
+        client = ses.client
+        for r in case["reqs"]:
+            kw = {}
+            if "method" in r:
+                kw["method"] = r["method"]
+            if "path" in r:
+                kw["path"] = with_query(r["path"], r.get("pathquery"))
+            if "qargs" in r:
+                kw["qargs"] = {k: v for k, v in r["qargs"]}
+            if "headers" in r:
+                kw["headers"] = {k: v for k, v in r["headers"]}
+            if r["kind"] == "bytes":
+                kw["body"] = r["body"].encode("latin-1")
+            elif r["kind"] == "data":
+                kw["data"] = r["data"]
+            elif r["kind"] == "fargs":
+                kw["fargs"] = {k: v for k, v in r["fargs"]}
+            client.request(**kw)                 # all queued before the first service round
+        n = len(specs)
+        for k, r in enumerate(case["reqs"]):
+            if k and "qargs" not in r and any("pathquery" in p for p in case["reqs"][:k]):
+                ctx.count("queued_requests_inheriting_qargs_behind_a_path_query")
+        idle = 0
+        for rnd in range(100 + GRACE + 20 * n):
+            try:
+                client.service()
+                ses.srv.service()
+            except Exception as ex:
+                typ, func, prim = hl.escape_mechanism(ex)
+                ctx.violation(f"loop-service-raises:queue:{typ}:{func}", f"service() raised {ex!r} while the queued requests were exchanged")
+                return
+            if len(client.responses) >= n:
+                break
+            if rnd > 6 * n:
+                idle += 1
+                hl.idle_wait([client.connector.cs] if client.connector.cs else [], idle, grace=rnd >= 100 + 20 * n)
+        ctx.peak("loop_rounds_max", rnd + 1)
+        for k, spec in enumerate(specs):
+            ctx.count("method_" + spec["method"].upper())
+            if k >= len(ses.caps):
+                fail(ctx, spec, "not-parsed", f"queued request #{k + 1} of {n} never reached the application "
+                     f"({len(ses.caps)} did, {len(client.responses)} responses)")
+                return
+            cap = ses.caps[k]
+            ok = compare(spec, {"wire": b"", "env": cap["env"], "body": cap["body"], "rs": None, "left": b"",
+                                "rs_names": cap["rs_names"], "loop": True}, ctx)
+            if ok:
+                ctx.count("queued_requests_compared")
+        ctx.nontrivial(case)
+        if n >= 3:
+            ctx.sample({"client": cl, "requests": case["reqs"], "recovered_query_strings": [c["env"].get("QUERY_STRING") for c in ses.caps]})
+    finally:
+        if ses is not None:
+            ses.close()
 
 
 FIELD_OF = {"header-names-differ": "headers", "header-differs-environ": "headers", "header-differs-requestant": "headers",
